@@ -183,25 +183,45 @@ pub fn scenarios(tier: Tier) -> Vec<Scenario> {
             add(P { producers: 1, k: 2, reducers: 1, keep: 1, keep_odd: 1, eff: EFF_ACTION, cap: 2, extra: 1, race_stop: false }, 2);
         }
         Tier::Thorough => {
-            for &(producers, k) in &[(1u32, 2u32), (2, 1), (2, 2), (3, 1), (3, 2)] {
+            // small programs to bound 3, every keep mask and chain length
+            for &(producers, k) in &[(1u32, 2u32), (2, 1)] {
                 for &reducers in &[1u32, 2, 3] {
                     for keep in 0..(1u8 << reducers) {
-                        for &cap in &[1usize, 2, 16] {
-                            for &extra in &[0u8, 1, 2] {
-                                for &race in &[false, true] {
-                                    for &eff in &[EFF_NONE, EFF_TASK] {
-                                        if (producers == 3 || reducers == 3) && (cap == 2 || (extra != 0 && race)) {
-                                            continue;
-                                        }
-                                        let bound = if producers == 3 { 2 } else { 3 };
-                                        add(P { producers, k, reducers, keep, keep_odd: (!keep) & ((1 << reducers) - 1), eff, cap, extra, race_stop: race }, bound);
-                                    }
+                        for &cap in &[1usize, 16] {
+                            for &race in &[false, true] {
+                                for &eff in &[EFF_NONE, EFF_TASK] {
+                                    add(P { producers, k, reducers, keep, keep_odd: (!keep) & ((1 << reducers) - 1), eff, cap, extra: 0, race_stop: race }, 3);
                                 }
                             }
                         }
                     }
                 }
             }
+            // a reader / registrar thread next to the producers, bound 2
+            for &(producers, k) in &[(1u32, 2u32), (2, 1)] {
+                for &reducers in &[1u32, 2] {
+                    for &extra in &[1u8, 2] {
+                        for &race in &[false, true] {
+                            for &cap in &[1usize, 2] {
+                                add(P { producers, k, reducers, keep: 0b01, keep_odd: 0b10 & ((1 << reducers) - 1), eff: EFF_NONE, cap, extra, race_stop: race }, 2);
+                            }
+                        }
+                    }
+                }
+            }
+            // larger programs, bound 2
+            for &(producers, k) in &[(2u32, 2u32), (3, 1), (1, 3)] {
+                for &reducers in &[1u32, 2] {
+                    for &cap in &[1usize, 2] {
+                        for &race in &[false, true] {
+                            add(P { producers, k, reducers, keep: 0b10 & ((1 << reducers) - 1), keep_odd: 0b01, eff: EFF_NONE, cap, extra: 0, race_stop: race }, 2);
+                        }
+                    }
+                }
+            }
+            add(P { producers: 2, k: 1, reducers: 1, keep: 0, keep_odd: 1, eff: EFF_ACTION, cap: 2, extra: 0, race_stop: false }, 2);
+            add(P { producers: 1, k: 2, reducers: 1, keep: 1, keep_odd: 0, eff: EFF_ACTION, cap: 1, extra: 0, race_stop: true }, 2);
+            add(P { producers: 3, k: 2, reducers: 1, keep: 0, keep_odd: 1, eff: EFF_NONE, cap: 1, extra: 0, race_stop: true }, 1);
         }
     }
     v
